@@ -85,6 +85,18 @@ def _all(ts):
 
 
 def execute(job):
+    """Never lets an exception raised by a public Token / renderer operation on parser output escape as a harness
+    failure: a stream that cannot even be copied, serialised or rendered is reported as a failed round trip."""
+    try:
+        return _execute(job)
+    except C.MachineryError:
+        raise
+    except Exception as ex:  # noqa
+        return {"val0": "", "html": "", "n": 0,
+                "ev": [{"op": "rt", "raised": 1, "eq": 0, "val0": "", "html": "", "exc": type(ex).__name__}]}, 3
+
+
+def _execute(job):
     cfgkey, doc, ops = job[:3]
     deco = job[3] if len(job) > 3 else 0
     from markdown_it.token import Token
